@@ -223,6 +223,13 @@ func (s *Sim) finish(t *Task) {
 // Spawn creates a task running f; it starts parked and runs only when released.
 func (s *Sim) Spawn(name string, f func()) *Task {
 	s.mu.Lock()
+	if s.stopping.Load() {
+		// nobody would release the task any more: run it as a plain goroutine
+		s.mu.Unlock()
+		t := &Task{Name: name, wake: make(chan struct{}), state: stDone, Site: -1, sim: s}
+		go f()
+		return t
+	}
 	t := s.newTask(name)
 	s.mu.Unlock()
 	if s.OnSpawn != nil {
@@ -424,6 +431,11 @@ func Yield(site int) {
 		return
 	}
 	s.mu.Lock()
+	if s.stopping.Load() {
+		// Stop ran between the check above and here and will not release us any more
+		s.mu.Unlock()
+		return
+	}
 	t.state = stParked
 	t.Site = site
 	s.mu.Unlock()
@@ -549,6 +561,10 @@ func (s *Sim) acquire(key any, read bool) *Task {
 			t.blockedOn = nil
 			s.mu.Unlock()
 			return t
+		}
+		if s.stopping.Load() {
+			s.mu.Unlock()
+			return nil
 		}
 		t.blockedOn = key
 		t.wantRead = read
